@@ -2,7 +2,7 @@
    OCaml driver and by vm_compute in generated cases files. *)
 From Coq Require Import ZArith QArith List String Bool.
 From SKC Require Import Model.Val Base.QBool Base.QList Base.QRank Model.Dominance Model.Agg Model.Electre Model.Result Model.Select Model.Transform Model.Weights Model.Filters Model.Untie Model.Diff Model.Pipeline Model.Impute Model.RRT Model.Simus.
-From SKC Require Model.Alias Model.Heap.
+From SKC Require Model.Alias Model.Heap Model.IntStorage.
 Import ListNotations.
 Local Open Scope string_scope.
 
@@ -307,6 +307,14 @@ Definition run_ctor_surface (u : Z) : val :=
       eL (fun k => match Model.Heap.impl_cmode k with Model.Heap.CopyIn => VB true | Model.Heap.Adopt => VB false end)
          (seq 0 Model.Heap.n_ctor_inputs)].
 
+(* C11: PushNegatives on a criterion stored in signed integers of the given width (the repaired code: 64) *)
+Definition run_push_neg_int (a : Z * list Z) : val :=
+  let (bits, v) := a in
+  match bits with
+  | Zpos b => eL eZ (Model.IntStorage.push_neg_wrapped b v)
+  | _ => VE 0%Z
+  end.
+
 Definition dispatch (fn : string) (arg : val) : val :=
   if fn =? "dominance" then with_arg (dP2 (dL dB) dMatrix) run_dominance arg
   else if fn =? "rank" then with_arg (dP2 dB (dL dQ)) run_rank arg
@@ -339,6 +347,7 @@ Definition dispatch (fn : string) (arg : val) : val :=
   else if fn =? "credit_sorted" then with_arg (dL dQ) run_credit_sorted arg
   else if fn =? "accessor_surface" then with_arg dZ run_accessor_surface arg
   else if fn =? "ctor_surface" then with_arg dZ run_ctor_surface arg
+  else if fn =? "push_neg_int" then with_arg (dP2 dZ (dL dZ)) run_push_neg_int arg
   else if fn =? "wsm" then with_arg dDM run_wsm arg
   else if fn =? "ratio" then with_arg dDM run_ratio arg
   else if fn =? "refpoint" then with_arg dDM run_refpoint arg
